@@ -216,15 +216,22 @@ fn lattice(seed: u64, idx: u64, variant: u64, stats: &mut Vec<(String, usize)>) 
         h += l as u32;
     }
     // rewind: shallow, around the pruning depth, or deep; then a big re-scan batch
-    let depth = *r.pick(&[1u32, 5, 39, 40, 41, 99, 100, 101, 130, 150]);
+    let depth = *r.pick(&[1u32, 2, 5, 39, 40, 41, 99, 100, 101, 130, 150]);
     let req = tip.saturating_sub(depth).max(BASE);
     if let OpResult::OkHeight(got) = do_trunc(&mut w, &mut rec, req) {
-        if r.chance(2, 3) {
-            let ext = (tip - got) as usize + r.range(0, 50) as usize;
+        if depth <= 5 || r.chance(2, 3) {
+            let ext = (tip - got) as usize + r.range(if depth <= 5 { 47 } else { 0 }, 55) as usize;
             fork(&mut w, &mut r, got, ext.max(1), &p);
         }
         let ntip = w.tip_height();
-        if got < ntip {
+        if depth <= 5 && ntip >= got + 47 {
+            // walk the tip block by block across the heights at which the orphaned transactions
+            // (first observed at got+1 .. got+depth) expire: min_observed + 40 = tip + 1
+            do_scan(&mut w, &mut rec, got + 1, 36);
+            for h in got + 37..=got + 46 {
+                do_scan(&mut w, &mut rec, h, 1);
+            }
+        } else if got < ntip {
             let l = if r.chance(1, 2) { (ntip - got) as usize } else { r.range(1, (ntip - got) as u64) as usize };
             do_scan(&mut w, &mut rec, got + 1, l);
         }
